@@ -114,6 +114,32 @@ def run_verus_unit(unit, scratch, tier, seed):
         ur.vacuity[rf.name] = ok
         if not ok and not any("reachability variant did not run" in u or "not a verification result" in u for u in ur.undecided):
             ur.undecided.append(f"vacuous contract: `ensures false` verifies for {rf.name} (contradictory requires, or unreachable exit)")
+    if tier == "thorough" and not ur.undecided:
+        # (a) re-verification with a different solver seed: a proof that depends on the seed is reported, not trusted
+        r2 = vunit.run_verus(main_p, seed=seed * 31 + 17)
+        f2, u2 = vunit.classify(r2, g)
+        if (f2 or u2) and not fails:
+            ur.undecided.append("unstable proof: verifies with the default seed but not with smt.random_seed=%d: %s" % (seed * 31 + 17, (f2[0].obligation if f2 else u2[0])[:200]))
+        ur.notes.append("thorough: second-seed re-verification %s" % ("passed" if not (f2 or u2) else "differs"))
+        # (b) reachability probe of every inserted ghost block: `assert(false)` placed at its end must FAIL
+        probes = []
+        for k in range(g.n_inserts):
+            gp = vunit.assemble(udir, REPO, variables=variables, probe_insert=k)
+            pp = os.path.join(scratch, f"{fname}_probe{k}.rs")
+            open(pp, "w").write(gp.text)
+            probes.append((k, gp, pp))
+        with cf.ThreadPoolExecutor(max_workers=6) as ex:
+            futs = {k: ex.submit(vunit.run_verus, pp, None, None, 2) for (k, gp, pp) in probes}
+        dead = []
+        for (k, gp, pp) in probes:
+            rp = futs[k].result()
+            line = next((i + 1 for i, l in enumerate(gp.lines) if "REACH-PROBE" in l), None)
+            hit = any(d.get("level") == "error" and any(sp["line_start"] == line for sp in d.get("spans", [])) for d in rp["diags"])
+            if not hit:
+                dead.append(gp.probe_desc or str(k))
+        ur.notes.append(f"thorough: {len(probes)} ghost insertion points probed for reachability, {len(dead)} unreachable")
+        for dsc in dead:
+            ur.undecided.append("unreachable ghost code (its assertions are vacuous): " + dsc)
     for f in g.fns:
         d = {"name": f"{unit}::{f.name}", "kind": f.kind, "props": f.props}
         if f.kind == "extracted":
